@@ -105,10 +105,17 @@ def check_case(case):
                                  observed=dict(failed=failed, outputs=obs.outputs), expected="an error"))
             else:
                 text = error_text(obs)
-                # a failed job counts as named when the name of (one of) the node(s) computing it
-                # appears at all: identical jobs of two nodes are executed once, under one name
+                # a failed job counts as named when its own recorded error (which carries the job's
+                # provenance token) appears in the report, or the node name with its state index
+                index_of = {}
+                per_node = {}
+                for j in jobs:
+                    k = per_node.get(j["node"], 0)
+                    per_node[j["node"]] = k + 1
+                    index_of.setdefault(j["token"], []).append(f"{j['node']}({k})")
                 missing = [t for t in failed
-                           if not any(n in text for n in tok_nodes.get(t, set()))]
+                           if f"injected failure in {t}" not in text
+                           and not any(nm in text for nm in index_of.get(t, []))]
                 if missing:
                     recs.append(dict(signature="error-does-not-name-every-failed-job",
                                      observed=dict(failed_nodes=sorted(failed_nodes), missing=missing,
@@ -142,15 +149,17 @@ def cases(draw):
     for j in jobs:
         by_node.setdefault(j["node"], set()).add(j["token"])
     partial = sorted(t for ts in by_node.values() if len(ts) >= 2 for t in ts)
-    if partial and draw(st.booleans()):
+    if partial and draw(st.integers(0, 2)) == 0:
         # partial failure: one job of a node that has several jobs fails, its siblings succeed
         fails = [draw(st.sampled_from(partial))]
     else:
         fails = draw(st.lists(st.sampled_from(toks), min_size=1, max_size=min(3, len(toks)), unique=True))
     # some outcomes are reported late by the worker: the job is finished (result on disk) while
     # another completion makes the submitter poll the job states
-    hold = draw(st.lists(st.integers(1, max(2, len(toks))), max_size=3, unique=True)) \
-        if draw(st.booleans()) else []
+    if len(fails) >= 2 or draw(st.booleans()):
+        hold = draw(st.lists(st.integers(1, max(2, len(toks))), min_size=1, max_size=4, unique=True))
+    else:
+        hold = []
     return dict(prog=prog, fails=sorted(fails), worker=draw(st.sampled_from(["sched"] * 5 + ["cf"])),
                 choices=draw(st.lists(st.integers(0, 7), max_size=40)), k=None, hold=hold)
 
